@@ -17,7 +17,7 @@ GEN_DEPTH = {
 }
 
 
-MODULE_OF = {"MC_auth": "MC_auth.tla", "MC_noauth": "MC_auth.tla", "GEN_auth": "MC_auth.tla", "GEN_noauth": "MC_auth.tla",
+MODULE_OF = {"MC_auth": "MC_auth.tla", "MC_noauth": "MC_auth.tla", "GEN_auth": "MC_auth.tla", "GEN_noauth": "MC_auth.tla", "GEN_anon": "MC_auth.tla",
              "MC_nonce": "Nonce.tla", "GEN_nonce": "Nonce.tla"}
 for _n in ("tcp", "tcpA", "tcpB"):
     MODULE_OF["MC_" + _n] = MODULE_OF["GEN_" + _n] = "TurnTCP.tla"
@@ -57,7 +57,7 @@ for _n in ("ltcred", "relaygenA", "relaygenTop", "relaygenOne", "relaygenWide"):
     MC_DEPTH["MC_" + _n] = None
     GEN_DEPTH["GEN_" + _n] = None
 MC_DEPTH.update({"MC_auth": (5, 7), "MC_noauth": (3, 4), "MC_nonce": None})
-GEN_DEPTH.update({"GEN_auth": (4, 5), "GEN_noauth": (2, 3), "GEN_nonce": None})
+GEN_DEPTH.update({"GEN_anon": (4, 5), "GEN_auth": (4, 5), "GEN_noauth": (2, 3), "GEN_nonce": None})
 
 
 NO_SIM = {"GEN_bindreply", "GEN_framerBig", "GEN_disp_serverstream", "GEN_steps", "GEN_clienttxnLA", "GEN_clienttxnLB", "GEN_clienttxnLC", "GEN_clienttxnLD", "GEN_clienttxnLE", "GEN_clienttxnB", "GEN_codec", "GEN_nonce", "GEN_noauth", "GEN_mtu", "GEN_mtu1200", "GEN_ltcred", "GEN_relaygenOne", "GEN_relaygenTop"}
@@ -193,7 +193,7 @@ def c08_run(ctx):
 
 def c09_run(ctx):
     core_run(["MC_disp_serverudp", "MC_disp_serverstream", "MC_disp_client", "MC_framer"],
-             ["GEN_disp_serverudp", "GEN_disp_serverstream", "GEN_disp_client", "GEN_framer", "GEN_framerBig", "GEN_tcpB", "GEN_auth"])(ctx)
+             ["GEN_disp_serverudp", "GEN_disp_serverstream", "GEN_disp_client", "GEN_framer", "GEN_framerBig", "GEN_tcpB", "GEN_auth", "GEN_clienttxnLA"])(ctx)
     if not ctx.violations:   # well-formed requests of several parties at once: nothing may wedge the server (real time)
         server_rt(ctx)
 
@@ -201,8 +201,12 @@ def c09_run(ctx):
 def ledger_attribute(ctx, exlines, badrel, module, cfg):
     """a datagram that arrived although the deletion of its authority had been announced before it was sent"""
     import json as _json
-    at = _json.loads(exlines[badrel]).get("at")
-    return {"arrive@%s" % at}, ({"C02", "C15"} if at == "client" else {"C01", "C15"})
+    ev = _json.loads(exlines[badrel])
+    at = ev.get("at")
+    own = {"C02", "C15"} if at == "client" else {"C01", "C15"}
+    if str(ev.get("id", ""))[1:3] == "z-":   # the last phase: after the Refresh(0) success was in the client's hands
+        own = own | {"C06"}
+    return {"arrive@%s" % at}, own
 
 
 def ledger_rt(ctx):
@@ -234,7 +238,7 @@ def c13_run(ctx):
 
 
 def c18_run(ctx):
-    core_run(["MC_steps", "MC_clienttxn", "MC_clienttxnLive", "MC_reaper"], ["GEN_steps", "GEN_tcpA", "GEN_tcpB", "GEN_lifeB", "GEN_clienttxnA", "GEN_reaperS"])(ctx)
+    core_run(["MC_steps", "MC_clienttxn", "MC_clienttxnLive", "MC_reaper"], ["GEN_steps", "GEN_tcpA", "GEN_tcpB", "GEN_lifeB", "GEN_clienttxnA", "GEN_clienttxnLA", "GEN_reaperS"])(ctx)
     if not ctx.violations:   # the real client under the random drivers: only "did not crash, did not lock up" is judged here
         n = 30 if ctx.tier == "quick" else 300
         ctx.trace_validate("clientconn", "TestClientConnTrace", None, None, n, alive_only=True)
@@ -249,7 +253,7 @@ def c18_run(ctx):
 
 
 def c05_run(ctx):
-    core_run(["MC_mtu"], ["GEN_mtu", "GEN_mtu1200", "GEN_relayA", "GEN_recycle", "GEN_stream"])(ctx)
+    core_run(["MC_mtu"], ["GEN_mtu", "GEN_mtu1200", "GEN_relayA", "GEN_recycle", "GEN_stream", "GEN_relaygenA"])(ctx)
     if not ctx.violations:
         n = 24 if ctx.tier == "quick" else 300
         ctx.trace_validate("relay", "TestRelayTrace", "TraceRelay.tla", "TraceRelay.cfg", n)
@@ -274,7 +278,7 @@ PROPS = {
                 run=with_ledger_rt(with_server_trace(core_run(["MC_relay", "MC_relayB", "MC_v6", "MC_tcp"], ["GEN_relayA", "GEN_relayB", "GEN_relayD", "GEN_v6", "GEN_tcpA", "GEN_recycle"]))),
                 assumptions=BASE_ASSUME + ["the TCP clause (a peer connection is announced only with a live permission for its source IP, else closed silently) is decided on TurnTCP.tla"]),
     "C03": dict(title="state changes only with valid long-term credentials", level="model_checking",
-                run=core_run(["MC_auth", "MC_noauth", "MC_nonce"], ["GEN_auth", "GEN_noauth", "GEN_nonce", "GEN_users", "GEN_tcpB"]),
+                run=core_run(["MC_auth", "MC_noauth", "MC_nonce"], ["GEN_auth", "GEN_noauth", "GEN_anon", "GEN_nonce", "GEN_users", "GEN_tcpB"]),
                 assumptions=BASE_ASSUME + ["HMAC-SHA1/MD5/SHA256 are treated as uninterpreted injective functions: what is decided is which key and "
                                            "bytes are compared and when, for the credential-defect classes of TurnAuth.tla and the mutation classes of Nonce.tla",
                                            "nonce ages 3601..3659 s are a grey band (implementation granularity) that is never probed"]),
@@ -288,7 +292,7 @@ PROPS = {
                                            "inbound MTU 1600 and 1200, 25 boundary lengths plus random ones up to 9000, single datagrams and bursts of 3-8 that arrive before the application reads; "
                                            "every arrival must be byte-identical to something sent in that direction for that endpoint, once, truthfully attributed; within the limits it must have arrived when the execution settles"]),
     "C06": dict(title="allocation lifetime, refresh and deletion are exact", level="model_checking",
-                run=with_server_trace(core_run(["MC_time", "MC_life", "MC_stream", "MC_reaper"], ["GEN_time", "GEN_users", "GEN_relayA", "GEN_lifeA", "GEN_stream", "GEN_reaper", "GEN_reaperS"])),
+                run=with_ledger_rt(with_server_trace(core_run(["MC_time", "MC_life", "MC_stream", "MC_reaper"], ["GEN_time", "GEN_users", "GEN_relayA", "GEN_lifeA", "GEN_stream", "GEN_reaper", "GEN_reaperS"]))),
                 assumptions=BASE_ASSUME),
     "C07": dict(title="permissions and channels live one full timeout past their last refresh", level="model_checking",
                 run=with_server_trace(core_run(["MC_relay", "MC_relayB", "MC_steps"], ["GEN_relayA", "GEN_relayB", "GEN_steps", "GEN_chan3"])),
@@ -377,7 +381,7 @@ PROPS = {
                              "NOT decided by this family of technique: data races (a TLA+ model has no memory model; the thorough tier runs the same replays under the race detector, which only monitors the schedules replayed) and lock release over all control-flow paths (only the paths the generated behaviours drive)",
                              "call-outs that take time while the library holds a lock (OnPermissionDeleted, OnChannelDeleted, OnPermissionCreated on the ChannelBind path) cannot take virtual time (synctest does not see mutex waits); they are gated, not slept in"]),
     "C19": dict(title="responses correlated, truthful, idempotent", level="model_checking",
-                run=with_server_trace(core_run(["MC_time", "MC_iso", "MC_resv", "MC_quota"], ["GEN_time", "GEN_users", "GEN_iso", "GEN_v6", "GEN_v6strict", "GEN_resv", "GEN_relaygenA", "GEN_quota", "GEN_stream"])),
+                run=with_server_trace(core_run(["MC_time", "MC_iso", "MC_resv", "MC_quota"], ["GEN_time", "GEN_users", "GEN_iso", "GEN_v6", "GEN_v6strict", "GEN_resv", "GEN_relaygenA", "GEN_quota", "GEN_stream", "GEN_reaper"])),
                 assumptions=BASE_ASSUME),
 }
 
